@@ -22,7 +22,7 @@ var coseAlgID = map[string]int64{"ES256": refcose.AlgES256, "ES384": refcose.Alg
 	"EdDSA": refcose.AlgEdDSA, "PS256": refcose.AlgPS256, "PS384": refcose.AlgPS384, "PS512": refcose.AlgPS512}
 
 func runC03(c *mon.Ctx) {
-	c.Rule("(a) valid claims-sets of both profiles and of a registered profile-2 extension (all optional subsets, hash sizes, 1-4 components, P1 flag or list, with/without explicit P1 profile; built directly / by setters / by decoding) x 7 algorithms x fresh keys (the ECDSA algorithms also with a curve other than the customary one: ES256 over P-384, ES384 over P-521, ES512 over P-256): SetClaims + ValidateAndSign (and Sign) must succeed; the token read by the independent COSE reader must be tag 18 / 4-array / [bstr, map, bstr, non-empty bstr], its payload byte-identical to ValidateAndEncodeClaimsToCBOR(claims), its protected header must carry the signer's algorithm under label 1; the independent verifier (Go stdlib crypto over a Sig_structure rebuilt by the harness) and Evidence.Verify on the signing Evidence must accept it; DecodeAndValidateEvidenceFromCOSE must succeed, return the same implementation type and identical Validate/getter results (also equal to the reference model's expectation), verify under the signer's key, and hold (hook H2) exactly the token's protected/payload/signature bytes; every token is also decoded by ONE REUSED Evidence that still holds the previous case's claims and must then expose exactly this token's claims; for every third case the attached claims are then edited in place (new nonce) and the SAME Evidence signs again: the second token's payload must be the encoding of the claims as they are now, verify, decode, and carry the new nonce; every fourth case the DECODED Evidence signs again with a key of another algorithm (re-issue): header algorithm, independent verification and payload are checked; every signing Evidence and token is kept and re-verified after six further cases; (c) the same round trip for registered extensions with unusual struct layouts (unexported embedded base over three levels with a non-last '-' field and a CBOR-only claim; mixin first); (b) invalid claims-sets signed with the non-validating Sign: the claims of the decoded Evidence must equal DecodeClaimsFromCBOR(payload read by the independent reader). distinct_nontrivial = distinct (algorithm, profile, route, optional-subset, nonce size, component count) signatures")
+	c.Rule("(a) valid claims-sets of both profiles and of a registered profile-2 extension (all optional subsets, hash sizes, 1-4 components, P1 flag or list, with/without explicit P1 profile; built directly / by setters / by decoding) x 7 algorithms x fresh keys (the ECDSA algorithms also with a curve other than the customary one: ES256 over P-384, ES384 over P-521, ES512 over P-256): SetClaims + ValidateAndSign (and Sign) must succeed; the token read by the independent COSE reader must be tag 18 / 4-array / [bstr, map, bstr, non-empty bstr], its payload byte-identical to ValidateAndEncodeClaimsToCBOR(claims), its protected header must carry the signer's algorithm under label 1; the independent verifier (Go stdlib crypto over a Sig_structure rebuilt by the harness) and Evidence.Verify on the signing Evidence must accept it; DecodeAndValidateEvidenceFromCOSE must succeed, return the same implementation type and identical Validate/getter results (also equal to the reference model's expectation), verify under the signer's key, and hold (hook H2) exactly the token's protected/payload/signature bytes; every token is also decoded by ONE REUSED Evidence that still holds the previous case's claims and must then expose exactly this token's claims; for every third case the attached claims are then edited in place (new nonce) and the SAME Evidence signs again: the second token's payload must be the encoding of the claims as they are now, verify, decode, and carry the new nonce; every fourth case the DECODED Evidence signs again with a key of another algorithm (re-issue): header algorithm, independent verification and payload are checked; every signing Evidence and token is kept and re-verified after six further cases; (c) the same round trip for registered extensions with unusual struct layouts (unexported embedded base over three levels with a non-last '-' field and a CBOR-only claim; mixin first); (b) invalid claims-sets signed with the non-validating Sign: the claims of the decoded Evidence must equal DecodeClaimsFromCBOR(payload read by the independent reader). Candidate-key trials: on the decoded and on the signing Evidence another key of the same algorithm is tried first (must fail), then the matching key (must succeed). Every 50th case carries 17..300 software components. distinct_nontrivial = distinct (algorithm, profile, route, optional-subset, nonce size, component count) signatures")
 	if err := extprof.Register(extprof.ExtP2Name); err != nil {
 		c.Violation("harness/register", err.Error(), nil)
 		return
